@@ -66,7 +66,7 @@ pub fn spec(prop: &str) -> Option<PropSpec> {
         "C13" => s("C13", "exploration", 100000, 1500000, &["probe.block_read_back"], &["probe.commit_ok"],
             "commit graph monitors around every commit and at every sync point; non-trivial = blocks were read back and compared with their files; distinct = distinct op sequence hash",
             &["probe.block_read_back", "probe.checkpoint_multihead", "probe.block_index_ge_10", "probe.graph_checked_in_time_travel"]),
-        "C14" => s("C14", "exploration", 60000, 900000, &["probe.reload_until"], &[],
+        "C14" => s("C14", "exploration", 40000, 600000, &["probe.reload_until"], &[],
             "reload_until / new_until for heads the replica had before, compared with the recorded checkpoint and the reference restricted to ancestors; non-trivial = at least one time travel executed; distinct = distinct op sequence hash",
             &["probe.reload_until", "probe.reload_until_multihead", "probe.history_rev_checked"]),
         "C15" => s("C15", "exploration", 100000, 1500000, &["probe.unstage_compared", "probe.stage_roundtrip", "probe.refresh_with_stage"], &[],
